@@ -298,7 +298,7 @@ func init() {
 		n := slLen(s)
 		st.assume(fmt.Sprintf("(and (= %s %s) (= %s %s))", slLen(ns), n, slCap(ns), slCap(s)))
 		st.assume(fmt.Sprintf("(forall ((i Int)) (! (=> (and (<= 0 i) (< i %s)) (and (<= 0 (%s i)) (< (%s i) %s) (= (select %s i) (select %s (%s i))) (= (%s (%s i)) i))) :pattern ((select %s i)) :pattern ((%s i))))", n, pf, pf, n, slEl(ns), slEl(s), pf, qf, pf, slEl(ns), pf))
-		st.assume(fmt.Sprintf("(forall ((j Int)) (! (=> (and (<= 0 j) (< j %s)) (and (<= 0 (%s j)) (< (%s j) %s) (= (select %s j) (select %s (%s j))) (= (%s (%s j)) j))) :pattern ((%s j))))", n, qf, qf, n, slEl(s), slEl(ns), qf, pf, qf, qf))
+		st.assume(fmt.Sprintf("(forall ((j Int)) (! (=> (and (<= 0 j) (< j %s)) (and (<= 0 (%s j)) (< (%s j) %s) (= (select %s j) (select %s (%s j))) (= (%s (%s j)) j))) :pattern ((%s j)) :pattern ((select %s j))))", n, qf, qf, n, slEl(s), slEl(ns), qf, pf, qf, qf, slEl(s)))
 		fc.assumed["slices.SortStableFunc / sort.*: result is a permutation of the input (sortedness not modelled)"] = true
 		fc.assignOut(e.Args[0], ns, st)
 		return nil
